@@ -2,10 +2,12 @@
 import time
 
 from harness import comp_poll as P
+from translate import poll as TP
 from vlib import core
 
-PROPS = "Props/C14.v"
-THEOREMS = ["C14_det_formula", "C14_model_is_matrix", "C14_basis_nonsingular", "C14_positive_span_unit",
+PROPS = ["Props/C14.v", "Props/C14src.v"]
+TRANSLATORS = ["poll"]      # translate/poll.py: poll_mads_2n + the refill block of _poll_step_ -> coq/gen/Src_poll.v (A.20)
+THEOREMS = ["C14_directions_are_source", "C14_candidates_are_source", "C14_forced_candidates_are_source", "C14_refill_test_is_source", "C14_det_formula", "C14_model_is_matrix", "C14_basis_nonsingular", "C14_positive_span_unit",
             "C14_positive_span", "C14_plus_minus_pairs", "C14_entries_bounded", "C14_default_is_coordinate",
             "C14_default_mesh_ratio_is_one", "C14_poll_points", "C14_poll_loop_each_row_once"]
 LEVEL = "proof"
@@ -17,6 +19,10 @@ RULE = ("component: the real poll_mads_2n under a numpy.random shim; EXHAUSTIVE 
         "noisy, non-box constraint, complete_poll).  Non-trivial = n>1 or poll_scale != 1 (component), a poll step "
         "with a dropped candidate or n>1 (run).")
 TRUSTED = [
+    "translate/poll.py (fail-closed ast translator, whitelist in its docstring) and the interpreter Model/PollSrc.v: a NumPy value is read "
+    "per entry with broadcasting along the last axis; shapes are inferred and checked by the translator; validated on EVERY run by evaluating "
+    "the generated programs on the tie's cases against the real code (correspondence:poll_source, correspondence:poll_step_source); "
+    "force_to_grid(x, s) is read as s * round(x / s) (its own translation: C17grid); period_check is the identity (no periodic variables)",
     "Coq 8.16.1 kernel + vm_compute (case evaluation); MathComp 1.x (all_ssreflect, all_fingroup, all_algebra) and mczify's ssrZ "
     "(ring structure on Coq's Z) — all axiom-free under Print Assumptions",
     "hand-written model Model/PollDirs.v of poll/poll_mads_2n.py and of the candidate bookkeeping of BADS._poll_step_, tied "
@@ -63,6 +69,7 @@ def _component_cases(ctx, n_sampled):
 def _replay_component(c, res):
     return dict(kind="poll_component", D=c["D"], ps=c["ps"], sm=c["sm"], m=c["m"], draws=res.get("draws"),
                 sdraws=res.get("sdraws"), perm=res.get("perm"), returned=res.get("B"), exc=res.get("exc"),
+                shim_seed=c.get("shim_seed"), ps_2d=bool(c.get("ps_2d")), protocol=res.get("protocol"),
                 how="./check C14 --replay <this file>  (re-runs pybads.poll.poll_mads_2n on these random outcomes)")
 
 
@@ -93,8 +100,6 @@ def _runs(ctx, n_seeds):
 def _monitor_runs(ctx, runs):
     for prob, seed, polls, info in runs:
         for k, p in enumerate(polls):
-            if "shim_error" in p:
-                continue
             p["forced"] = bool(prob.get("opts", {}).get("force_poll_mesh"))
             r = P.monitor_poll_step(p)
             if r:
@@ -144,6 +149,25 @@ def tie(ctx, broken):
                            f"signs={r['sdraws']} perm={r['perm']} requested={r['contract']} returned={r['B']}"))
         else:
             broken.append(("correspondence:poll_mads_2n", "case evaluation failed or the generator raised: " + log[-300:]))
+    # ---- the GENERATED generator on the same literals (translator validation)
+    if items:
+        oks, bads, logs = core.run_cases("C14src", P.REQUIRES_SRC, P.CASE_TY, P.OK_FUN_SRC, coq, shard=max(150, len(coq) // 12 + 1))
+        goods = ctx.oblige("correspondence:poll_source", "correspondence", oks and not bads,
+                           f"{len(bads)} of {len(coq)} calls differ from the generated program src_gen; " + logs[-400:])
+        if not goods:
+            if bads:
+                c, r = good_items[bads[0]]
+                who = ("the hand-written model agrees with the code on this call: TRANSLATOR / interpreter fault" if bads[0] not in bad
+                       else "the hand-written model differs too")
+                broken.append(("correspondence:poll_source",
+                               f"generated program and poll_mads_2n differ ({who}): D={c['D']} mesh {c['sm']}/{c['m']} poll_scale={c['ps']} "
+                               f"draws={r['draws']} signs={r['sdraws']} perm={r['perm']} requested={r['contract']} returned={r['B']}"))
+            else:
+                broken.append(("correspondence:poll_source", "the generated program could not be evaluated (gen/Src_poll.v missing or not "
+                               "building): " + logs[-300:]))
+        elif bad:
+            ctx.notes.append("the generated program agrees with poll_mads_2n on every call where the hand-written model differs: the source has "
+                             "changed and Model/PollDirs.v no longer describes it; changed definitions: " + str(TP.LAST.get("changed")))
     t1 = time.time()
 
     # ---- run level
@@ -196,33 +220,79 @@ def tie(ctx, broken):
                            f"evaluated={p['evald'][:4]}"))
         else:
             broken.append(("correspondence:poll_step", f"{unbuilt} poll steps not reconstructible / {npolls} poll steps; " + logr[-300:]))
+    # ---- the GENERATED refill block / loop statements on the same poll steps (translator validation)
+    if coqr:
+        srcc = [P.coq_run_case_src(p) for _, _, _, p in idx]
+        if any(x is None for x in srcc):
+            ctx.oblige("correspondence:poll_step_source", "correspondence", False, "state places not recorded")
+            broken.append(("correspondence:poll_step_source", "the harness could not record the mesh places of the state"))
+        else:
+            oks, bads, logs = core.run_cases("C14srcrun", P.REQUIRES_SRC, P.RUN_CASE_TY_SRC, P.RUN_OK_FUN_SRC, srcc, shard=max(20, len(srcc) // 12 + 1))
+            goods = ctx.oblige("correspondence:poll_step_source", "correspondence", oks and not bads,
+                               f"{len(bads)} of {len(srcc)} poll steps differ from the generated programs src_gen / src_cand; " + logs[-400:])
+            if not goods:
+                if bads:
+                    pr, sd, k, p = idx[bads[0]]
+                    who = ("the hand-written model agrees with the code on this step: TRANSLATOR / interpreter fault" if bads[0] not in badr
+                           else "the hand-written model differs too")
+                    broken.append(("correspondence:poll_step_source",
+                                   f"generated refill block and _poll_step_ differ ({who}): run {pr['name']} seed {sd} poll step {k}: incumbent={p['u']} "
+                                   f"mesh state/attr={p.get('state_mesh')}/{p.get('attr_mesh')} search mesh state/attr={p.get('state_search_mesh')}/"
+                                   f"{p.get('attr_search_mesh')} evaluated={p['evald'][:4]}"))
+                else:
+                    broken.append(("correspondence:poll_step_source", "the generated programs could not be evaluated: " + logs[-300:]))
+            elif badr:
+                ctx.notes.append("the generated refill block agrees with _poll_step_ on every poll step where the hand-written model differs: the "
+                                 "source has changed; changed definitions: " + str(TP.LAST.get("changed")))
     ctx.notes.append(f"tie wall: component {t1 - t0:.1f}s, run level {time.time() - t1:.1f}s")
 
 
-def search(ctx, broken):
-    """something is broken and the tie's own monitors found nothing: look harder"""
-    for i in range(20000):
-        c = P.sample_case(ctx.rng, i)
-        try:
-            res = P.run_real(c["D"], c["ps"], c["sm"], c["m"], P.SampleShim(ctx.rng), ps_2d=c["ps_2d"])
-        except P.ShimError:
-            break
+def _search_component(ctx, n_aimed, n_plain):
+    """the generator under a sampling shim seeded per case (so that a call that no longer follows the (entries, signs, permutation) protocol
+    can still be replayed: the replay carries the shim seed); a changed protocol alone is NOT a violation, the returned array is judged"""
+    import random
+    for i in range(n_aimed + n_plain):
+        c = P.aimed_case(ctx.rng, i) if i < n_aimed else P.sample_case(ctx.rng, i)
+        seed = ctx.rng.randrange(1, 10 ** 9)
+        res = P.run_real(c["D"], c["ps"], c["sm"], c["m"], P.SampleShim(random.Random(seed)), ps_2d=c["ps_2d"], lenient=True)
+        if "protocol" in res and "exc" in res:
+            continue            # the shim itself refused (e.g. a third randint): nothing returned, nothing to judge
+        c = dict(c, shim_seed=seed)
         if _monitor_component(ctx, [(c, res, "search")]):
             return True
+    return False
+
+
+def _search_runs(ctx, n_seeds):
     try:
-        runs = _runs(ctx, 3)
+        runs = _runs(ctx, n_seeds)
     except P.ShimError:
         return False
     return _monitor_runs(ctx, runs)
 
 
+def search(ctx, broken):
+    """something is broken and the tie's own monitors found nothing: look harder, FIRST where the translator says the source changed
+    (TP.aim(): 'generator' = poll_mads_2n, 'candidates' = the refill block of _poll_step_, 'loop' = read / evaluate / delete).
+    Verdicts are the declarative monitors' (monitor_dirs / monitor_poll_step): independent of the model and of the translator."""
+    aim = TP.aim()
+    ctx.notes.append(f"[search aimed at: {aim or 'everything'}] [source change: {TP.LAST.get('error') or TP.LAST.get('changed')}]")
+    if aim and "generator" not in aim:          # the refill block / the loop changed: real runs first (more seeds), then the generator
+        return _search_runs(ctx, 4) or _search_component(ctx, 4000, 4000)
+    return _search_component(ctx, 12000, 12000) or _search_runs(ctx, 3)
+
+
 def replay(ctx, rp):
     r = rp["replay"]
     if r.get("kind") == "poll_component":
-        if r.get("draws") is None:
+        if r.get("draws") is None and r.get("shim_seed") is None:
             print("replay: no random outcomes recorded (the generator raised before drawing)")
             return 1
-        res = P.run_real(r["D"], r["ps"], r["sm"], r["m"], P.EnumShim(r["draws"], r["sdraws"], r["perm"]))
+        if r.get("draws") is None:      # the call did not follow the (entries, signs, permutation) protocol: re-run under the same seeded sampling shim
+            import random
+            res = P.run_real(r["D"], r["ps"], r["sm"], r["m"], P.SampleShim(random.Random(r["shim_seed"])), ps_2d=r.get("ps_2d", False), lenient=True)
+        else:
+            res = P.run_real(r["D"], r["ps"], r["sm"], r["m"], P.EnumShim(r["draws"], r["sdraws"], r["perm"]), lenient=True)
         print("replay: returned", res.get("B", res.get("exc")))
         msg = ("raises", res["exc"]) if "exc" in res else P.monitor_dirs(r["D"], res["B"], r["ps"], r["sm"], r["m"])
         print("replay:", msg[1] if msg else "property holds on this input now")
@@ -232,7 +302,7 @@ def replay(ctx, rp):
         polls, info = P.run_bads(prob, r["seed"])
         rc = 0
         for k, p in enumerate(polls):
-            m = P.monitor_poll_step(p) if "shim_error" not in p else ("shim", p["shim_error"])
+            m = P.monitor_poll_step(p)
             if m:
                 print(f"replay: poll step {k}: {m[1]}")
                 rc = 1
